@@ -329,8 +329,11 @@ func runC07(c *core.Ctx) core.Meta {
 			if s, ok := n.Instr.(*ssa.Store); ok {
 				if f := core.FieldOfAddr(s.Addr); f != nil {
 					if bo, ok := s.Val.(*ssa.BinOp); ok {
-						if bo.Op == token.AND {
+						if bo.Op == token.AND || bo.Op == token.AND_NOT {
 							if m, ok := core.ConstUint(bo.Y); ok && core.LoadedField(bo.X) == f {
+								if bo.Op == token.AND_NOT {
+									m = ^m
+								}
 								lastAnd[f.Name()] = m
 								continue
 							}
@@ -357,12 +360,15 @@ func runC07(c *core.Ctx) core.Meta {
 			if bo, ok := n.Instr.(*ssa.BinOp); ok && bo.Op == token.OR {
 				for _, pair := range [][2]ssa.Value{{bo.X, bo.Y}, {bo.Y, bo.X}} {
 					and, ok := pair[0].(*ssa.BinOp)
-					if !ok || and.Op != token.AND {
+					if !ok || (and.Op != token.AND && and.Op != token.AND_NOT) {
 						continue
 					}
 					M, ok := core.ConstUint(and.Y)
 					if !ok {
 						continue
+					}
+					if and.Op == token.AND_NOT {
+						M = ^M
 					}
 					S, ok := shiftOfTerm(pair[1])
 					if !ok {
